@@ -387,7 +387,10 @@ struct Shared {
 static SHARED: std::sync::OnceLock<Shared> = std::sync::OnceLock::new();
 /// runner threads parked inside a refused allocation (their memory and stack stay allocated)
 static PARKED: AtomicU64 = AtomicU64::new(0);
-const MAX_PARKED: u64 = 100;
+const MAX_PARKED: u64 = 300;
+/// heap bytes held by parked threads (never freed) after which the worker also restarts
+static LEAKED: AtomicU64 = AtomicU64::new(0);
+const MAX_LEAKED: u64 = 1 << 30;
 const RUNNER_STACK: usize = 8 << 20;
 pub const VOLUNTARY_EXIT: i32 = 88;
 
@@ -399,7 +402,9 @@ pub const VOLUNTARY_EXIT: i32 = 88;
 pub fn on_refusal(idx: u64, requested: usize, held: isize, token: &str) -> ! {
     println!("A {idx} {requested} {held} {token}");
     let parked = PARKED.fetch_add(1, Ordering::Relaxed) + 1;
-    if SHARED.get().is_none() || parked >= MAX_PARKED {
+    // `held` includes the refused request itself, which was not served
+    let leaked = LEAKED.fetch_add((held.max(0) as u64).saturating_sub(requested as u64), Ordering::Relaxed);
+    if SHARED.get().is_none() || parked >= MAX_PARKED || leaked >= MAX_LEAKED {
         // single-case modes (resolve / replay) or too many parked threads: leave the process
         if SHARED.get().is_some() {
             // the refused case is accounted for by the parent: commit the block up to and including it
